@@ -106,10 +106,10 @@ theorem attribute_defaults (env : Env) (f : Nat) (k : Key) :
 def exRec : Env :=
   { uris := ["urn:a"],
     types := [⟨(0, "Node"), none,
-      [⟨"value", .builtin "int", 1, false, false, true, false⟩,
-       ⟨"next", .complex (0, "Node"), 1, false, false, true, false⟩,
-       ⟨"alt", .builtin "string", 1, false, false, true, true⟩,
-       ⟨"items", .builtin "string", 0, true, false, true, false⟩],
+      [⟨"value", .builtin "int", 1, false, false, true, false, none⟩,
+       ⟨"next", .complex (0, "Node"), 1, false, false, true, false, none⟩,
+       ⟨"alt", .builtin "string", 1, false, false, true, true, none⟩,
+       ⟨"items", .builtin "string", 0, true, false, true, false, none⟩],
       [⟨"id", "int", false, some "7"⟩]⟩] }
 
 example : (skeleton exRec 8 (0, "Node")).fieldNames = ["_id", "value", "next", "items"] := by decide
